@@ -325,7 +325,7 @@ pub fn cover_inputs(quick: bool, html_only: bool) -> Vec<(Vec<u8>, usize, usize)
         if b.get("st").is_none() || b.get("cls").is_none() { continue; }
         let p: Vec<u8> = arr.iter().map(|x| x.as_u64().unwrap_or(0) as u8).collect();
         if quick {
-            let key = format!("{}|{}|{}|{}|{}", b["st"], b["tt"], b["cls"], b["ns"], b["k"]);
+            let key = format!("{}|{}|{}|{}|{}|{}", b["st"], b["tt"], b["cls"], b["ns"], b["k"], b["ret"]);
             if !seen.insert(key) { continue; }
         }
         for (wi, w) in COVER_WORDS.iter().enumerate() {
